@@ -132,7 +132,8 @@ def main(tier):
             if n == 0:
                 RN.ok(1)
     import bounds
-    bounds.check(rep, {'raid_pq_gen', 'raid_pq_check', 'ec_dot_prod', 'ec_mad', 'ec_mul', 'mem_zero'}, 'BLOCK', 78)
+    bounds.check(rep, {'raid_pq_gen', 'raid_pq_check', 'ec_dot_prod', 'ec_mad', 'ec_mul', 'mem_zero'}, 'BLOCK', 77)
+    bounds.check(rep, {'crc', 'crc_copy', 'adler'}, 'CRC', 30)
     rep.analysed.update(asm_units=len(units), kernels=len(res), families=sorted({i['fam']['family'] for i in res.values()}),
                         memory_operands=sum(len(i['accesses']) for i in res.values()))
     return rep.finish()
